@@ -339,7 +339,7 @@ def run(ck, replay=None):
     from checks.wcommon import solver_twins
     ck.cov["twin_object_histories"] = solver_twins(ck, darsia, "C05", quick, methods=("newton",) if quick else ("newton", "bregman"))
     events = []
-    sel = rng.sample(pairs, min(len(pairs), 30 if quick else 1500))
+    sel = rng.sample(pairs, min(len(pairs), 30 if quick else 800))
     for i, (m1, m2) in enumerate(sel):
         events.append(thin_event(darsia, rng, f"thin:{i}", m1, m2))
     for i in range(4 if quick else 150):   # longer chains than the model-checking bound (all 1-D and n x 1 (x 1) grids up to 40 cells)
@@ -355,7 +355,7 @@ def run(ck, replay=None):
         if sum(m1) == 0:
             continue
         events.append(thin_event(darsia, rng, f"thinlong:{i}", m1, m2))
-    for i in range(6 if quick else 60):    # ~5-15 s each (six solver runs of up to 60 iterations)
+    for i in range(6 if quick else 42):    # ~5-15 s each (six solver runs of up to 60 iterations)
         events.append(relations_event(darsia, rng, f"rel:{i}"))
     for i in range(6 if quick else 36):    # every quadrature mode x method on a path of cells
         events.append(relations_event(darsia, rng, f"relthin:{i}", thin=True))
